@@ -92,7 +92,12 @@ func (c *ctx) expired() bool {
 		c.firstDispatch = time.Now()
 		return false
 	}
-	return time.Since(c.firstDispatch).Seconds() > c.budgetSec*c.stretch
+	st := c.stretch
+	if len(c.rates) == 0 {
+		// no enumeration batch has come back yet: nothing is known about the speed of this machine
+		st = c.maxStretch
+	}
+	return time.Since(c.firstDispatch).Seconds() > c.budgetSec*st
 }
 
 func (c *ctx) observeRate(evals int64, wall float64) {
